@@ -73,7 +73,7 @@ def expand(choices):
 class FakeThread:
     def __init__(self, ident):
         self.ident = ident
-        self.name = "t%d" % ident
+        self.name = "worker"        # threads are told apart by ident: applications do give several threads one name
 
 
 class FakeThreadingMod:
